@@ -63,6 +63,16 @@ def str_dict(node, what: str) -> List[Tuple[str, str]]:
     return out
 
 
+def lean_chars(v: str) -> str:
+    return "[" + ",".join(lean_char(c) for c in v) + "]"
+
+
+def lean_pairs_chars(pairs: List[Tuple[str, str]]) -> str:
+    """(name, text as an explicit `List Char`): kernel reduction (`decide +kernel`) over long texts is
+    fast on char lists and very slow through `String.toList`"""
+    return "[\n  " + ",\n  ".join(f"-- {v!r}\n  ({lean_str(k)}, {lean_chars(v)})" for k, v in pairs) + "]"
+
+
 def lean_pairs(pairs: List[Tuple[str, str]]) -> str:
     return "[\n  " + ",\n  ".join(f"({lean_str(k)}, {lean_str(v)})" for k, v in pairs) + "]"
 
@@ -223,7 +233,7 @@ def gen_xlate_tables() -> str:
     for fn, var, lname in RESOURCE_TABLES:
         f = find_func(cls.body, fn)
         out.append(f"/-- `{var}` of `{fn}` -/")
-        out.append(f"def {lname} : List (String × String) := " + lean_pairs(str_dict(_assign_value(f.body, var), f"{fn}.{var}")))
+        out.append(f"def {lname} : List (String × List Char) := " + lean_pairs_chars(str_dict(_assign_value(f.body, var), f"{fn}.{var}")))
     # units of seconds_to_duration
     sd = find_func(cls.body, "seconds_to_duration")
     units = _assign_value(sd.body, "units")
